@@ -107,7 +107,7 @@ fn parse_en_passant_target(en_passant_target: &str) -> Result<Option<Square>, St
 <Halfmove Clock> ::= <digit> {<digit>}
 <digit> ::= '0' | '1' | '2' | '3' | '4' | '5' | '6' | '7' | '8' | '9'
  */
-fn parse_halfmove_clock(halfmove_clock: &str) -> u8 {
+fn parse_halfmove_clock(halfmove_clock: &str) -> u16 {
     halfmove_clock.parse().expect("Failed to parse halfmove clock from FEN")
 }
 
@@ -116,7 +116,7 @@ fn parse_halfmove_clock(halfmove_clock: &str) -> u8 {
 <digit19> ::= '1' | '2' | '3' | '4' | '5' | '6' | '7' | '8' | '9'
 <digit>   ::= '0' | <digit19>
  */
-fn parse_fullmove_counter(fullmove_counter: &str) -> u8 {
+fn parse_fullmove_counter(fullmove_counter: &str) -> u16 {
     fullmove_counter.parse().expect("Failed to parse fullmove counter from FEN")
 }
 
